@@ -262,7 +262,9 @@ func (d *ParagraphDetector) detectLeftMargin(lines []Line) float64 {
 	maxCount := 0
 	mostCommonBucket := 0
 	for bucket, count := range marginCounts {
-		if count > maxCount {
+		// A tie goes to the leftmost position, so that the result does not depend
+		// on map iteration order
+		if count > maxCount || (count == maxCount && bucket < mostCommonBucket) {
 			maxCount = count
 			mostCommonBucket = bucket
 		}
@@ -476,7 +478,9 @@ func (d *ParagraphDetector) detectDominantAlignment(lines []Line) LineAlignment 
 	maxCount := 0
 	dominant := AlignUnknown
 	for align, count := range counts {
-		if count > maxCount {
+		// A tie goes to the alignment with the smaller value, so that the result
+		// does not depend on map iteration order
+		if count > maxCount || (count == maxCount && align < dominant) {
 			maxCount = count
 			dominant = align
 		}
